@@ -21,22 +21,6 @@ pub open spec fn old_lits_interned(c: &Context) -> bool {
     forall|r: ExprRef| #[trigger] c.has(r) && c.nodes()[r] is BVLiteral ==> c.values.interned(c.nodes()[r]->BVLiteral_0.0)
 }
 
-pub proof fn lemma_frame(old: &Context, new: &Context, r: ExprRef)
-    requires grows(old, new), old_kids_older(old), old_lits_interned(old), old.has(r),
-    ensures new.has(r), new.nodes()[r] == old.nodes()[r], new.ty(r) == old.ty(r), new.den(r) == old.den(r),
-    decreases r.0,
-{
-    old.lemma_nodes();
-    new.lemma_nodes();
-    let n = old.nodes()[r];
-    assert(new.nodes()[r] == n);
-    assert forall|i: int| 0 <= i < kids(n).len() implies new.ty(#[trigger] kids(n)[i]) == old.ty(kids(n)[i]) && new.den(kids(n)[i]) == old.den(kids(n)[i])
-        && kids(n)[i].0 < r.0 by {
-        lemma_frame(old, new, kids(n)[i]);
-    }
-    lemma_kids_cover(n);
-}
-
 /// `kids` lists exactly the ExprRef fields of a node (used to transfer facts about all children at once)
 pub proof fn lemma_kids_cover(n: Expr)
     ensures match n {
@@ -51,6 +35,8 @@ pub proof fn lemma_kids_cover(n: Expr)
 {
 }
 
+//@@GENERATED-LEMMAS@@
+
 pub proof fn lemma_extends(old: &Context, new: &Context)
     requires grows(old, new), old_kids_older(old), old_lits_interned(old),
     ensures new.extends(old),
@@ -59,4 +45,93 @@ pub proof fn lemma_extends(old: &Context, new: &Context)
         && new.den(r) == old.den(r) && new.ty(r) == old.ty(r) by {
         lemma_frame(old, new, r);
     }
+}
+
+/// wf gives the two restated facts
+pub proof fn lemma_wf_basics(c: &Context)
+    requires c.wf(),
+    ensures old_kids_older(c), old_lits_interned(c),
+{
+    reveal(Context::all_nodes_ok);
+    assert forall|r: ExprRef, i: int| #[trigger] c.has(r) && 0 <= i < kids(c.nodes()[r]).len() implies
+        (#[trigger] kids(c.nodes()[r])[i]).0 < r.0 && c.has(kids(c.nodes()[r])[i]) by {
+        assert(c.node_ok(r));
+    }
+    assert forall|r: ExprRef| #[trigger] c.has(r) && c.nodes()[r] is BVLiteral implies c.values.interned(c.nodes()[r]->BVLiteral_0.0) by {
+        assert(c.node_ok(r));
+    }
+}
+
+/// growing a well-formed context keeps it well-formed, provided the appended nodes are ok
+pub proof fn lemma_grow_wf(old: &Context, new: &Context)
+    requires old.wf(), grows(old, new), new.rep(),
+             forall|r: ExprRef| #[trigger] new.has(r) && !old.has(r) ==> new.node_ok(r),
+    ensures new.wf(), new.extends(old),
+{
+    lemma_wf_basics(old);
+    lemma_extends(old, new);
+    old.lemma_nodes();
+    new.lemma_nodes();
+    assert(new.all_nodes_ok()) by {
+        reveal(Context::all_nodes_ok);
+        assert forall|r: ExprRef| #[trigger] new.has(r) implies new.node_ok(r) by {
+            if old.has(r) { lemma_node_ok_transfer(old, new, r); }
+        }
+    }
+    // canonical: one reference per node (the table has no duplicates), one handle per literal (interner invariant)
+    assert forall|r: ExprRef| #[trigger] new.has(r) implies new.ref_of(new.nodes()[r]) == r by {
+        let r2 = new.ref_of(new.nodes()[r]);
+        assert(new.has(r2) && new.nodes()[r2] == new.nodes()[r]);
+        assert(new.exprs@[r2.0 - 1] == new.exprs@[r.0 - 1]);
+    }
+    assert forall|l: BVLitValue| #[trigger] new.lit_interned(l) implies new.lit_of(l.0.width, new.lit_v(l)) == l by {
+        let l2 = new.lit_of(l.0.width, new.lit_v(l));
+        assert(new.values.interned(l2.0) && l2.0.width == l.0.width && new.values.val(l2.0) == new.values.val(l.0));
+    }
+}
+
+
+/// the whole proof obligation of `add_expr` after the table insert: either the node was present (nothing changed) or it was appended
+pub proof fn lemma_add_expr(old: &Context, new: &Context, value: Expr, index: usize, fresh: bool)
+    requires old.wf(), old.node_typed(value), new.exprs.inv(), new.strings == old.strings, new.values == old.values,
+             new.true_expr_ref == old.true_expr_ref, new.false_expr_ref == old.false_expr_ref,
+             old.exprs@.contains(value) ==> new.exprs@ == old.exprs@ && index < old.exprs@.len() && old.exprs@[index as int] == value,
+             !old.exprs@.contains(value) ==> new.exprs@ == old.exprs@.push(value) && index == old.exprs@.len(),
+             index < u32::MAX - 1,
+    ensures built(old, new, ExprRef((index + 1) as u32), value, old.node_ty(value), old.node_den(value)),
+            old.is_node(value) ==> old.has(ExprRef((index + 1) as u32)) && old.nodes()[ExprRef((index + 1) as u32)] == value,
+{
+    let r = ExprRef((index + 1) as u32);
+    old.lemma_nodes(); new.lemma_nodes();
+    old.exprs.ax_table_bound(); new.exprs.ax_table_bound();
+    lemma_wf_basics(old);
+    assert(grows(old, new));
+    if old.exprs@.contains(value) {
+        assert forall|q: ExprRef| #[trigger] new.has(q) && !old.has(q) implies new.node_ok(q) by {}
+        lemma_grow_wf(old, new);
+        assert(old.has(r) && old.nodes()[r] == value);
+        old.lemma_node_ok(r);
+    } else {
+        lemma_extends(old, new);
+        lemma_new_node(old, new, value);
+        assert forall|q: ExprRef| #[trigger] new.has(q) && !old.has(q) implies new.node_ok(q) by { assert(q == r); }
+        lemma_grow_wf(old, new);
+        if old.is_node(value) {
+            let q = choose|q: ExprRef| #[trigger] old.has(q) && old.nodes()[q] == value;
+            assert(old.exprs@[q.0 - 1] == value);
+        }
+    }
+}
+
+/// interning a value only extends the interner: the expression table is untouched and the context stays well-formed
+pub proof fn lemma_values_grow(old: &Context, new: &Context)
+    requires old.wf(), new.exprs == old.exprs, new.strings == old.strings, new.values.inv(), new.values.extends(&old.values),
+             new.true_expr_ref == old.true_expr_ref, new.false_expr_ref == old.false_expr_ref,
+    ensures new.wf(), new.extends(old),
+{
+    old.lemma_nodes(); new.lemma_nodes();
+    old.exprs.ax_table_bound();
+    assert(grows(old, new));
+    assert forall|q: ExprRef| #[trigger] new.has(q) && !old.has(q) implies new.node_ok(q) by {}
+    lemma_grow_wf(old, new);
 }
